@@ -74,6 +74,31 @@ def call_Where(self, node, args):
 }
 
 
+def _is_callee_name_classifier(model: Model, qual: str) -> bool:
+    """a private function of one parameter n that hands back n.func.id when n is a call of a plain name and None otherwise:
+    `f(x) == "Op"` then says exactly what is_call_of(x, "Op") says"""
+    fi = model.lookup_target(qual)
+    from .model import FuncInfo
+
+    if not isinstance(fi, FuncInfo) or not fi.is_private or len(fi.pos_params) != 1:
+        return False
+    fa = TermCtx(model, max_depth=1).analysis(fi)
+    p = ("param", fi.pos_params[0])
+    ok_val = False
+    for s_, n_ in fa.returns():
+        t = strip_sites(fa.term_of(s_.value, n_)) if s_.value is not None else ("const", None)
+        for alt in (t[1] if t[0] == "phi" else [t]):
+            if alt == ("const", None):
+                continue
+            if alt != ("attr", ("attr", p, "func"), "id"):
+                return False
+            fx = Facts(fa, s_)
+            if not (fx.isinstance_of(p, {"ast.Call"}) and fx.isinstance_of(("attr", p, "func"), {"ast.Name"})):
+                return False
+            ok_val = True
+    return ok_val
+
+
 def branch_key(fa, fx: Facts, source_term) -> Tuple:
     """which inner operator this return is reached for: ('Select',) / ('else',) / ('else', 'true') ..."""
     pos = []
@@ -89,6 +114,24 @@ def branch_key(fa, fx: Facts, source_term) -> Tuple:
                 (pos if pol else neg).append(a.args[1].value)
             elif a.func.id == "lambda_is_true":
                 extra.append("true" if pol else "nottrue")
+        elif isinstance(a, ast.Compare) and len(a.ops) == 1 and isinstance(a.ops[0], ast.Eq) and isinstance(a.comparators[0], ast.Constant) and isinstance(a.comparators[0].value, str) and fa.cfg.has_node(a.left):
+            # `<name of the function x calls> == "Op"` through a private classifier (x.func.id for a call of a plain name, else None)
+            try:
+                t = strip_sites(fa.term_of(a.left))
+            except AnalysisError:
+                continue
+            if t[0] == "app" and t[1][0] == "global" and len(t[2]) == 1 and _is_callee_name_classifier(fa.ctx.model, t[1][1]):
+                if t[2][0] != source_term:
+                    subj_ok = False
+                (pos if pol else neg).append(a.comparators[0].value)
+            else:
+                # the same read in place (or after the classifier was inlined): x.func.id, possibly "or None when x is no such call"
+                alts = [x for x in (t[1] if t[0] == "phi" else [t]) if x != ("const", None)]
+                if len(alts) == 1 and alts[0][0] == "attr" and alts[0][2] == "id" and alts[0][1][0] == "attr" and alts[0][1][2] == "func":
+                    if alts[0][1][1] != source_term:
+                        subj_ok = False
+                    (pos if pol else neg).append(a.comparators[0].value)
+    pos = sorted(set(pos))
     if len(pos) == 1:
         return (pos[0],) + tuple(extra) + (() if subj_ok else ("!subject",))
     if not pos:
